@@ -345,6 +345,9 @@ std::shared_ptr<IDataFrame> BlockHDF5::createDataFrame(const std::string &name,
 
 shared_ptr<IMultiTag> BlockHDF5::createMultiTag(const std::string &name, const std::string &type,
                                                 const DataArray &positions) {
+    if (!hasEntity(positions)) {
+        throw std::runtime_error("BlockHDF5::createMultiTag: positions DataArray not found in block!");
+    }
     string id = util::createId();
     boost::optional<H5Group> g = multi_tag_group(true);
 
